@@ -41,6 +41,9 @@ GeneRow(n, c, D) == [op |-> "gene", n |-> n, c |-> c, D |-> D, den |-> D * n,
 
 ASSUME \A a \in Rates4 : PrintT(<<"LAW", ToJson(MaskLawRow("coins", 3, a, D4))>>)
 ASSUME PrintT(<<"LAW", ToJson(MaskLawRow("coins", 3, 1, 2))>>)
+(* ... and on the shortest genomes (1, 2 and 4 genes: a whole genome may be "most of the genome" there, *)
+(* and positions are decided independently all the same)                                               *)
+ASSUME \A n \in {1, 2, 4} : PrintT(<<"LAW", ToJson(MaskLawRow("coins", n, 1, 2))>>)
 ASSUME \A n \in 2..4 : PrintT(<<"LAW", ToJson(MaskLawRow("ool", n, 1, n))>>)
 (* any two genes of a long genome are decided independently (positions 1, 64 and 128 apart) *)
 ASSUME \A a \in {1, 2, 3} : PrintT(<<"LAW", ToJson(MaskLawRow("pair", 2, a, D4))>>)
